@@ -425,12 +425,21 @@ class Interp:
                     r = a[1] == 0
                 elif c[0] == 'cnt' and a == ('int', 0) and c[1] in (0, 1):
                     r = c[1] == 0
+                elif (a == ('cnt', 0) and (c == ('ge1',) or (c[0] == 'int' and c[1] >= 1))) or (c == ('cnt', 0) and (a == ('ge1',) or (a[0] == 'int' and a[1] >= 1))):
+                    r = False
                 if r is None:
                     return ('b?',)
                 return B(r if op == 'Eq' else not r)
             if op in ('Lt', 'Le', 'Gt', 'Ge'):
                 if a[0] == 'int' and c[0] == 'int':
                     return B({'Lt': a[1] < c[1], 'Le': a[1] <= c[1], 'Gt': a[1] > c[1], 'Ge': a[1] >= c[1]}[op])
+                # an empty set (count 0) against a requested count (>= 1 by the API precondition)
+                def ge1(v):
+                    return v == ('ge1',) or (v[0] == 'int' and v[1] >= 1)
+                if a == ('cnt', 0) and ge1(c):
+                    return B({'Lt': True, 'Le': True, 'Gt': False, 'Ge': False}[op])
+                if c == ('cnt', 0) and ge1(a):
+                    return B({'Lt': False, 'Le': False, 'Gt': True, 'Ge': True}[op])
                 return ('b?',)
             if op.startswith('Add') and (a[0] == 'cnt' or c[0] == 'cnt'):
                 return ('cnt', 1)
@@ -585,8 +594,19 @@ class Interp:
                 heap['inc'] = 'None'
                 finish(E('Option', 'Some', TOP) if cur == 'Some' else E('Option', 'None'), heap)
                 return outs
-        if path in ('std::option::Option::unwrap_or', 'std::option::Option::unwrap', 'std::result::Result::unwrap'):
-            finish(TOP, heap)
+        if path == 'std::option::Option::unwrap_or':
+            a = args[0]
+            if a[0] == 'e' and a[1] == 'Option':
+                finish(a[3][0] if a[2] == 'Some' and a[3] else args[1], heap)
+            else:
+                finish(TOP, heap)
+            return outs
+        if path in ('std::option::Option::unwrap', 'std::result::Result::unwrap'):
+            a = args[0]
+            if a[0] == 'e' and a[2] in ('Some', 'Ok') and a[3]:
+                finish(a[3][0], heap)
+            else:
+                finish(TOP, heap)
             return outs
         # ---------- record-set events
         if args and isinstance(args[0], tuple) and args[0] and args[0][0] == 'rsetp':
@@ -634,6 +654,9 @@ class Interp:
                 if heap.get('complete') is True:
                     self.violate('FSM-P', body, t, 'search-while-record-pending',
                                  'a record search starts although a located record has not been advanced over (it would be skipped / delivered twice) [state=%s]' % heap['state'], heap)
+            if cb.path in self.locate and heap.get('setc') == 1 and any(a == B(True) for a in args[1:]):
+                self.violate('FSM-S5', body, t, 'compaction-allowed-while-set-holds-records',
+                             'the resumed search may move the buffer (flag true) although the record set under construction already holds records: their offsets would refer to moved bytes', heap)
             for (rv, hp) in self.run_fn(cb, heap, args + [TOP] * (cb.arg_count - len(args))):
                 if cb.path in self.locate and rv == E('Result', 'Ok', B(True)):
                     hp['complete'] = True
